@@ -346,6 +346,13 @@ func (x *Exec) rangeInit(st *State, ins *ssa.Range) []*State {
 	it := st.alloc(types.Typ[types.Int]) // iterator identity; cell:int holds nothing useful
 	h := st.heapTermIn(st.heap, "ghost:iterpos", 1, "Int")
 	st.heapSet("ghost:iterpos", fmt.Sprintf("(store %s %s 0)", h, it.T))
+	if _, isMap := ins.X.Type().Underlying().(*types.Map); isMap {
+		// a new iteration has produced no key yet
+		_, kk, _ := mapKeys(ins.X.Type())
+		ksort := scalarSort(kk)
+		vh := st.heapTermIn(st.heap, "ghost:visited:"+ksort, 1, "(Array "+ksort+" Bool)")
+		st.heapSet("ghost:visited:"+ksort, fmt.Sprintf("(store %s %s ((as const (Array %s Bool)) false))", vh, it.T, ksort))
+	}
 	v := Value{K: VRef, T: it.T, Ty: ins.Type(), Fs: []Value{xv}}
 	st.env[ins] = v
 	return []*State{st}
@@ -385,6 +392,9 @@ func (x *Exec) rangeNext(st *State, ins *ssa.Next) []*State {
 	st.assume(fmt.Sprintf("(=> %s (not (select (select %s %s) %s)))", okv.T, vh, it.T, k.T))
 	st.assume(fmt.Sprintf("(=> (not %s) (forall ((k %s)) (! (=> (select (select %s %s) k) (select (select %s %s) k)) :pattern ((select (select %s %s) k)))))", okv.T, ksort, dom, xv.T, vh, it.T, vh, it.T))
 	st.heapSet("ghost:visited:"+ksort, fmt.Sprintf("(store %s %s (store (select %s %s) %s true))", vh, it.T, vh, it.T, k.T))
+	// the key handed out last (contracts name it lastkey_in(n): the loop body may ignore the key)
+	lh := st.heapTermIn(st.heap, "ghost:lastkey:"+ksort, 1, ksort)
+	st.heapSet("ghost:lastkey:"+ksort, fmt.Sprintf("(store %s %s (ite %s %s (select %s %s)))", lh, it.T, okv.T, k.T, lh, it.T))
 	var v Value
 	if get := x.mapValAddr(st, mk, xv, ksort, vt); get != nil {
 		v = get(k.T)
@@ -422,6 +432,11 @@ func (x *Exec) chanSend(st *State, ins *ssa.Send) []*State {
 	x.panicObl(st, ins, "protocol", fmt.Sprintf("(not (select %s %s))", h, ch.T), "send on closed channel")
 	nh := st.heapTermIn(st.heap, "ghost:chan_sends", 1, "Int")
 	st.heapSet("ghost:chan_sends", fmt.Sprintf("(store %s %s (+ (select %s %s) 1))", nh, ch.T, nh, ch.T))
+	// the value sent last on a channel of strings (contracts: chan_last_str(c))
+	if v := x.get(st, ins.X); v.K == VStr {
+		lh := st.heapTermIn(st.heap, "ghost:chan_last_str", 1, "Str")
+		st.heapSet("ghost:chan_last_str", fmt.Sprintf("(store %s %s %s)", lh, ch.T, v.T))
+	}
 	return []*State{st}
 }
 
